@@ -87,6 +87,40 @@ CHECKS = {
   "and all later calls must fail, and every call must return (a caller parked in Rpc in two dumps is a hang). Held on the enumerated fault points.",
   "'delivered' = read from the transport by the client before the fault; hang decided by two dumps 0.7 s apart after 3 s and again after 15 s",
   "DESIGN.md §5 C10"),
+ "C14": ("ufslab", "exploration",
+  "differential runtime monitor: bytes moved through go9p client + real Ufs versus the host file and a byte-array model",
+  "Random-content files of boundary lengths (0, 1, iounit+-1, k*iounit+-1, random) are read with boundary and random (offset, count) pairs through Clnt.Read, File.Read, ReadAt and Readn and written "
+  "through Clnt.Write, File.Write, WriteAt and Written at arbitrary offsets/chunkings, for msize 128..65536 and both dialects, 32 files open at once; every returned byte/count/offset is compared with "
+  "the host file (os.ReadFile) and the model after each step. Held on the files and sequences run.",
+  "trusts the host file system and os package; in-process server over scripted connections",
+  "DESIGN.md §5 C14"),
+ "C15": ("ufslab", "exploration",
+  "wire monitor: every Rread of a directory decoded record by record with the independent codec and reconciled with os.ReadDir",
+  "Directories of 0..3000 entries with name lengths 1..255 are listed through raw Treads following the offset rule with every count from the largest entry up to four entries (exhaustive for small "
+  "directories), random counts, msize 256..65536, both dialects, restarts at offset 0, too-small counts; each payload must consist of whole records <= count, the multiset of names must equal the host's, "
+  "and File.Readdir(0) must return the same set. Held on the listings run.",
+  "directory not modified during listing; trusts the wire codec and os.ReadDir",
+  "DESIGN.md §5 C15"),
+ "C16": ("ufslab", "exploration",
+  "differential runtime monitor: Rwalk/Rstat contents and client path helpers versus os.Lstat on seeded random trees",
+  "Random trees (depth up to 40, odd names, files, directories, in-tree symlinks, hard links): raw walks of 0..16 elements with an existing prefix of every length, in place and to a new fid, then "
+  "Tstat of both fids; qid count/type/path, mode, length, mtime and name compared with Lstat; qid paths equal for hard links and distinct otherwise; FStat/FOpen of paths of every depth. Held on the trees and walks run.",
+  "uid/gid/muid, atime, qid.version and directory lengths are not compared; trusts os.Lstat",
+  "DESIGN.md §5 C16"),
+ "C17": ("ufslab", "exploration",
+  "twin-tree differential monitor: each 9P mutation is mirrored with the corresponding os/syscall call on a twin tree and the trees are compared after every step",
+  "Seeded sequences of create (all open modes), mkdir, symlink, hard link, write, remove, rename, truncate, chmod and mtime operations, including error cases with a single POSIX answer; after each step "
+  "the 9P-mutated tree must equal the twin (names, kinds, contents, permissions, link targets, hard-link partition, set mtimes), an Rerror must leave the tree unchanged and carry the twin's errno (.u), "
+  "and the fid must designate the created/renamed object. Held on the sequences run.",
+  "twin operations run in the same process (same uid 0, umask); operations whose POSIX counterpart is ambiguous are not generated",
+  "DESIGN.md §5 C17"),
+ "C18": ("ufslab", "exploration",
+  "canary monitor: sandbox outside the exported root snapshotted before/after every hostile session; inode and token leak detectors on everything the server returns",
+  "Attach names, walk element lists, create names and rename targets from a hostile grammar ('..', '.', '', '/', absolute paths, ../ chains, a/../../x, mixtures with real names) at every depth, each "
+  "followed by stat, open+read, listing, create, mkdir, write, chmod, rename and remove through the fid obtained. Outside the root nothing may change or appear, no returned qid or listing entry may carry an "
+  "outside inode, no payload a canary token, and '..' from the root must yield the root. Held on the sessions run.",
+  "tree without symlinks leaving it (premise); hostile names are bounded so that they cannot climb above the sandbox",
+  "DESIGN.md §5 C18"),
  "C04": ("srvlab", "exploration",
   "online reference-model monitor: every request/reply of sequential histories judged against an executable fid-table model, plus invocation/FidDestroy log of a scripted implementation",
   "The real server framework runs in-process with a scripted implementation over scripted in-memory connections; each step of (a) all (fid state x request x outcome) transitions on fresh "
@@ -127,6 +161,8 @@ def main():
              "kind_free_text": "in-process differential monitor of go9p's codec against the independent codec harness/wire"},
             {"name": "clntlab", "path": "harness/lab/clntlab", "serves_properties": ["C09", "C10", "C12", "C13"],
              "kind_free_text": "go9p client library against the scripted raw peer (harness/peer) over scripted connections; client hook points through harness/sched"},
+            {"name": "ufslab", "path": "harness/lab/ufslab", "serves_properties": ["C14", "C15", "C16", "C17", "C18"],
+             "kind_free_text": "real Ufs on scratch trees, accessed through go9p's client and through raw connections; host file system and twin trees as reference"},
             {"name": "srvlab", "path": "harness/lab/srvlab", "serves_properties": ["C03", "C04", "C05", "C07", "C08", "C11", "C12", "C13"],
              "kind_free_text": "real server framework + scripted implementation (harness/script) over scripted connections (harness/memconn), schedule-point controller (harness/sched), reference models (harness/model)"},
         ],
